@@ -22,7 +22,10 @@ MixedShapes == {<<"vN">>, <<"v1">>, <<"V">>, <<"files", "rE">>, <<"files", "rp">
                 <<"PQ">>, <<"a-b">>, <<"vN", "a">>, <<"v1", "V">>, <<"a", "vN">>}
 (* a third small universe ("enc"): a literal segment with a percent-encoded character *)
 EncShapes == {<<"a%20b">>, <<"V">>, <<"a%20b", "V">>, <<"V", "a%20b">>}
-Code(c) == CASE c = "a" -> 1 [] c = "b" -> 2 [] c = "V" -> 3 [] c = "v1" -> 4 [] c = "vN" -> 5 [] c = "files" -> 6
+(* a fourth small universe ("root"): the root template "/" -- one literal EMPTY segment, symbol "E" -- next to *)
+(* the templates it competes with; under a server with base path /b it is the path "/b/", and "/b" is a near miss *)
+RootShapes == {<<"E">>, <<"a">>, <<"V">>, <<"a", "V">>}
+Code(c) == CASE c = "E" -> 12 [] c = "a" -> 1 [] c = "b" -> 2 [] c = "V" -> 3 [] c = "v1" -> 4 [] c = "vN" -> 5 [] c = "files" -> 6
              [] c = "rp" -> 7 [] c = "rE" -> 8 [] c = "a-b" -> 9 [] c = "PQ" -> 10 [] c = "a%20b" -> 11
 ShapeRank(sh) == Len(sh) * 10000 + Code(sh[1]) * 256
                  + (IF Len(sh) > 1 THEN Code(sh[2]) * 16 ELSE 0) + (IF Len(sh) > 2 THEN Code(sh[3]) ELSE 0)
@@ -39,6 +42,7 @@ Seg(sym, p, k) ==
      [] sym = "rE" -> [mx |-> <<[l |-> "report."], [v |-> VarName(p, k)]>>]
      [] sym = "PQ" -> [mx |-> <<[v |-> "p"], [l |-> "-"], [v |-> "q"]>>]
      [] sym = "rp" -> [l |-> "report.pdf"]
+     [] sym = "E" -> [l |-> ""]
      [] OTHER -> [l |-> sym]
 
 Templ(sh, k, mk) ==
@@ -178,7 +182,7 @@ MainMethods == {"GET", "POST"}
 OddMethods == {"DELETE", "PROPFIND", "get"}
 
 (* a relative URL must not start with "//" (it would be read as an authority) *)
-WellFormed(r) == Len(r.u.path) > 0 /\ (r.u.abs \/ r.u.path[1] # "")
+WellFormed(r) == Len(r.u.path) > 0 /\ (r.u.abs \/ r.u.path[1] # "" \/ Len(r.u.path) = 1)
 
 (* every server declared anywhere in the document (document level and path level) *)
 AllServers(doc) == UNION {{TServers(doc, t)[i] : i \in 1..Len(TServers(doc, t))} : t \in 1..Len(doc.templates)}
